@@ -13,8 +13,8 @@ class Check(PropertyCheck):
     assumptions = ["amounts are 128-bit"]
 
     def families(self, rng, tier):
-        return [("formulas.lp_share", fam_swap.share_cases(rng, tier)),
-                ("world.provide_matrix", fam_world.provide_matrix(rng, tier)),
-                ("world.first_provision", fam_world.first_provision_matrix(rng, tier)),
-                ("world.reseed", fam_world.reseed_histories(rng, tier)),
-                ("world.general", fam_world.general_histories(rng, tier, n_hist={"quick": 5, "thorough": 50}[tier])), ("world.extreme", fam_world.extreme_histories(rng, tier))]
+        return [("formulas.lp_share", fam_swap.share_cases(rng.sub("share_cases"), tier)),
+                ("world.provide_matrix", fam_world.provide_matrix(rng.sub("provide_matrix"), tier)),
+                ("world.first_provision", fam_world.first_provision_matrix(rng.sub("first_provision_matrix"), tier)),
+                ("world.reseed", fam_world.reseed_histories(rng.sub("reseed_histories"), tier)),
+                ("world.general", fam_world.general_histories(rng.sub("general_histories"), tier, n_hist={"quick": 5, "thorough": 50}[tier])), ("world.extreme", fam_world.extreme_histories(rng.sub("extreme_histories"), tier))]
